@@ -6,6 +6,7 @@ use crate::world::World;
 pub mod c01;
 pub mod c02;
 pub mod c03;
+pub mod c04;
 pub mod c05;
 pub mod c06;
 pub mod c07;
@@ -26,6 +27,7 @@ pub fn dispatch(check: &str, rep: &mut Rep) -> bool {
         "c01" => c01::run(rep),
         "c02" => c02::run(rep),
         "c03" => c03::run(rep),
+        "c04" => c04::run(rep),
         "c05" => c05::run(rep),
         "c06" => c06::run(rep),
         "c07" => c07::run(rep),
